@@ -190,6 +190,16 @@ func (e *Engine) callStatic(st *State, fn *ssa.Function, args []Val, bindings []
 	}
 	ct := e.contractOf(fn)
 	isTop := len(st.Frames) > 0 && st.Frames[0].Fn == fn
+	if e.Opts.TokenModel && !isTop && e.Specs.CodecFns != nil && fn.Signature.Recv() == nil && len(st.Frames) > 0 {
+		if cd := e.Specs.CodecFns[FullKey(fn)]; cd != nil && !(st.Frames[0].Contract != nil && st.Frames[0].Contract.Inlines[FuncKey(fn)]) && st.Frames[0].Fn.Name() != cd.By && len(args) == 2 {
+			if fn.Name() == cd.Enc {
+				e.tokSummaryEncodeVal(st, cd, fn.Signature.Params().At(1).Type(), args[1], args[0], pos, k)
+			} else {
+				e.tokSummaryDecodeInto(st, cd, fn.Signature.Params().At(1).Type(), args[1], args[0], pos, k)
+			}
+			return
+		}
+	}
 	if e.Opts.TokenModel && !isTop && (fn.Name() == "Encode" || fn.Name() == "Decode") && fn.Signature.Recv() != nil && len(st.Frames) > 0 {
 		// (not inside the type's own lemma function: there the real methods are examined, inlined or through their own contracts)
 		if cd, T := e.codecOf(fn); cd != nil && !(st.Frames[0].Contract != nil && st.Frames[0].Contract.Inlines[FuncKey(fn)]) && st.Frames[0].Fn.Name() != cd.By {
@@ -849,6 +859,11 @@ func (e *Engine) havocLocs(st *State, locs []Loc) {
 		if strings.HasPrefix(l.Class, "ghost:") {
 			name := strings.TrimPrefix(l.Class, "ghost:")
 			gs, ok := ghostSorts[name]
+			if !ok && strings.HasPrefix(name, "rec:") {
+				// record arrays of loops (rec("NAME", k)): iteration -> value
+				gs, ok = SArrI, true
+				ghostSorts[name] = SArrI
+			}
 			if !ok {
 				gs = SInt
 			}
